@@ -132,6 +132,42 @@ pub fn op_law<T: OrdElem>(cx: &mut Ctx, scn: &Scenario, w: &mut World<T>, op: &O
                 }
                 prev = Some((q, r));
             }
+            // the same laws through the bulk entry point, with the q list passed in the op's form
+            if op.form != 0 {
+                let mut w2 = World::<T>::build(scn);
+                restore(&mut w2, &before);
+                let pol = derive(&op.alt, 1000);
+                let (o, sx) = with_policy(&pol, budget(n) + 64 * op.qs.len(), || call_quantile(w2.view_mut(), scn.static_dim, "quantiles1", op.lane, 0, &op.qs, s, op.form));
+                cx.note_draws(pol.kind, &sx.draws);
+                match o {
+                    Outcome::Done(Ok(rb)) => {
+                        let rb: Vec<T> = rb.iter().cloned().collect();
+                        if rb.len() != op.qs.len() {
+                            cx.fail("law-monotone", format!("{}: bulk call with {} q values returned {} results", s.name(), op.qs.len(), rb.len()));
+                            return;
+                        }
+                        for j in 0..rb.len() {
+                            let (q, r) = (op.qs[j], &rb[j]);
+                            if !(le_tol(vmin.num(), r.num(), tol) && le_tol(r.num(), vmax.num(), tol)) {
+                                cx.fail("law-bounds", format!("{} bulk quantile at q={:?} is {:?}, outside [min {:?}, max {:?}]", s.name(), q, r, vmin, vmax));
+                                return;
+                            }
+                            if (q == 0.0 && !r.num().num_eq(vmin.num())) || (q == 1.0 && !r.num().num_eq(vmax.num())) {
+                                cx.fail(if q == 0.0 { "law-q0-min" } else { "law-q1-max" }, format!("{} bulk quantile at q={:?} is {:?}; lane min {:?}, max {:?} (qs {:?} passed in list form {})", s.name(), q, r, vmin, vmax, op.qs, op.form));
+                                return;
+                            }
+                            if j > 0 && op.qs[j - 1] <= q && !le_tol(rb[j - 1].num(), r.num(), tol) {
+                                cx.fail("law-monotone", format!("{} (bulk call, list form {}): quantile({:?}) = {:?} > quantile({:?}) = {:?} on lane {:?}", s.name(), op.form, op.qs[j - 1], rb[j - 1], q, r, vals));
+                                return;
+                            }
+                        }
+                    }
+                    _ => {
+                        cx.fail("law-call-failed", format!("law_monotone: bulk quantiles_mut({:?}, {}) on a lane of length {} failed", op.qs, s.name(), n));
+                        return;
+                    }
+                }
+            }
         }
         "law_sandwich" => {
             let q = op.qs[0];
